@@ -193,23 +193,25 @@ ER(x) == [l |-> SetOf(x.l), r |-> SetOf(x.r)]
 ExtsFails(e) ==
   LET x == ER(e)  oth == ER(e.other)
       Text(S) == Ascii(SortSet(S))
+      \* the property (C12): rc swaps the sides and complements the bases, complement / reverse do one half each, involution
       R2 == /\ ER(e.rc) = FlipE(x)
             /\ ER(e.complement) = [l |-> CompS(x.l), r |-> CompS(x.r)]
             /\ ER(e.reverse) = [l |-> x.r, r |-> x.l]
-            /\ e.nl = Cardinality(x.l) /\ e.nr = Cardinality(x.r)
-            /\ \A b \in 0..3 : e.has[b + 1] = <<b \in x.l, b \in x.r>>
-            /\ e.uniq[1] = (IF Cardinality(x.l) = 1 THEN CHOOSE b \in x.l : TRUE ELSE -1)
-            /\ e.uniq[2] = (IF Cardinality(x.r) = 1 THEN CHOOSE b \in x.r : TRUE ELSE -1)
-            /\ SetOf(e.single.l) = x.l /\ e.single.lr = <<>> /\ SetOf(e.single.r) = x.r /\ e.single.rr = <<>>
-            /\ e.dbg = Text(x.l) \o "|" \o Text(x.r)
-            /\ ER(e.merge) = [l |-> x.l, r |-> oth.r]
-            /\ ER(e.add) = UnionE(x, oth)
-            /\ ER(e.from_single_dirs) = [l |-> x.l, r |-> oth.l]
-            /\ SetOf(e.mk.l) = {e.mk.a} /\ SetOf(e.mk.r) = {e.mk.b}
-            /\ SetOf(e.mk.ml) = {e.mk.a} /\ e.mk.mlr = <<>> /\ SetOf(e.mk.mr) = {e.mk.b} /\ e.mk.mrl = <<>>
-            /\ SetOf(e.mk.set_l) = x.l \cup {e.mk.a} /\ SetOf(e.mk.set_r) = x.r \cup {e.mk.b}
             /\ FlipE(FlipE(x)) = x
-  IN IF R2 THEN {} ELSE {"R2"}
+      \* the rest of the Exts API (beyond the listed properties; reported, never a verdict)
+      R2x == /\ e.nl = Cardinality(x.l) /\ e.nr = Cardinality(x.r)
+             /\ \A b \in 0..3 : e.has[b + 1] = <<b \in x.l, b \in x.r>>
+             /\ e.uniq[1] = (IF Cardinality(x.l) = 1 THEN CHOOSE b \in x.l : TRUE ELSE -1)
+             /\ e.uniq[2] = (IF Cardinality(x.r) = 1 THEN CHOOSE b \in x.r : TRUE ELSE -1)
+             /\ SetOf(e.single.l) = x.l /\ e.single.lr = <<>> /\ SetOf(e.single.r) = x.r /\ e.single.rr = <<>>
+             /\ e.dbg = Text(x.l) \o "|" \o Text(x.r)
+             /\ ER(e.merge) = [l |-> x.l, r |-> oth.r]
+             /\ ER(e.add) = UnionE(x, oth)
+             /\ ER(e.from_single_dirs) = [l |-> x.l, r |-> oth.l]
+             /\ SetOf(e.mk.l) = {e.mk.a} /\ SetOf(e.mk.r) = {e.mk.b}
+             /\ SetOf(e.mk.ml) = {e.mk.a} /\ e.mk.mlr = <<>> /\ SetOf(e.mk.mr) = {e.mk.b} /\ e.mk.mrl = <<>>
+             /\ SetOf(e.mk.set_l) = x.l \cup {e.mk.a} /\ SetOf(e.mk.set_r) = x.r \cup {e.mk.b}
+  IN (IF R2 THEN {} ELSE {"R2"}) \cup (IF R2x THEN {} ELSE {"R2x"})
 
 \* ---------------------------------------------------------------- extraction (C13)
 ExtractFails(e) ==
